@@ -44,6 +44,18 @@ def check(chk):
     _drain_chain(chk, repo)
     _end_requests_unconditional(chk, repo)
     _per_game_limits(chk, repo)
+    # the wait for empty playfields before a ball starts polls until no playfield holds a ball: what one poll found must not carry over to the
+    # next (the "found" flag is reset inside the polling loop), or a ball that was still rolling at the first poll blocks the game for ever
+    wpe = repo.func("mpf/core/ball_controller.py", "BallController.wait_until_playfields_are_empty")
+    chk.analysed(wpe)
+    wl_ = [x for x in walk_local(wpe.node) if isinstance(x, ast.While)]
+    chk.need(len(wl_) == 1, "DOM-13", "wait_until_playfields_are_empty polls in a loop", wpe)
+    inside_ = {id(y) for st in wl_[0].body for y in ast.walk(st)}
+    flags_ = {t.id for x in ast.walk(wl_[0]) if isinstance(x, ast.Assign) and const_value(x.value) is True for t in x.targets if isinstance(t, ast.Name)}
+    resets_ = [x for x in walk_local(wpe.node) if isinstance(x, ast.Assign) and const_value(x.value) is False and any(isinstance(t, ast.Name) and t.id in flags_ for t in x.targets)]
+    ok_ = bool(flags_) and bool(resets_) and all(id(x) in inside_ for x in resets_)
+    chk.ob("DOM-13", "each poll of the empty-playfield wait starts with a fresh `found` flag (reset inside the loop)", ok_, wpe.where(resets_[0]) if resets_ else wpe.where(),
+           detail="flags %s" % sorted(flags_), construct=wpe.ident, text="poll flag reset per poll")
     # a slam tilt always ends the game: whenever there is a game, slam_tilt() marks it slam tilted - also during a running tilt or while the
     # game is ending (the mark is what makes the loop end the game instead of rotating to the next ball)
     from sa.cfg import canon_set as _cs6, canon_fact as _cf6
@@ -604,6 +616,7 @@ def _game_end_waits(chk):
 def battery():
     from sa.battery import M
     return [
+        M("found flag of the empty-playfield wait set up once", "mpf/core/ball_controller.py", "        while True:\n            found_balls = False\n", "        found_balls = False\n        while True:\n", "DOM-13"),
         M("slam tilt ignored during a tilt", "mpf/modes/tilt/code/tilt.py", "        if not self.machine.game:\n            return\n\n        self.machine.game.slam_tilted = True", "        if not self.machine.game or self.machine.game.tilted:\n            return\n\n        self.machine.game.slam_tilted = True", "DOM-13"),
         M("balls per game read once per machine run", GM, "        self.balls_per_game = self.machine.config['game']['balls_per_game'].evaluate([])", "        if self.balls_per_game is None:\n            self.balls_per_game = self.machine.config['game']['balls_per_game'].evaluate([])", "LIMIT-6"),
         M("second end_game request ignored", GM, "        self.ending = True\n        self.end_ball()\n\n    def _game_ending_completed", "        if self.ending:\n            return\n        self.ending = True\n        self.end_ball()\n\n    def _game_ending_completed", "END-6"),
